@@ -81,8 +81,11 @@ class Engine(ExprMixin, CallMixin):
     # ------------------------------------------------------------------ sidecar spec functions
     def _load_spec_defs(self):
         path = getattr(self.sidecar, "__file_spec__", self.sidecar.__file__)
-        tree = ast.parse(open(path).read())
-        for n in tree.body:
+        # __file_spec__ may be a list of files (a sidecar that reuses another sidecar's vocabulary and adds its own):
+        # the @spec functions of all of them are loaded, later files overriding earlier ones
+        paths = list(path) if isinstance(path, (list, tuple)) else [path]
+        body = [n for p_ in paths for n in ast.parse(open(p_).read()).body]
+        for n in body:
             if isinstance(n, ast.FunctionDef) and any(isinstance(d, ast.Name) and d.id == "spec" for d in n.decorator_list):
                 self.funcs["spec:" + n.name] = n
                 self.inline.add("spec:" + n.name)
@@ -866,7 +869,19 @@ class Engine(ExprMixin, CallMixin):
         for n in self.not_none_names(test, truth):
             v = st.env.get(n)
             if isinstance(v, VOpt):
-                st.env[n] = v.val
+                val = v.val
+                if not self.spec and self.depth == 0:
+                    # in the function under verification itself (not inside an inlined helper, whose path facts are folded
+                    # into conditions): a compound payload gets a name - a fresh constant defined equal to it - which
+                    # keeps later terms small and usable as quantifier triggers
+                    def named(leaf):
+                        if z3.is_const(leaf) or z3.is_int_value(leaf) or z3.is_string_value(leaf):
+                            return leaf
+                        c = z3.Const(uid(n + ".some"), leaf.sort())
+                        st.assume(c == leaf)
+                        return c
+                    val = tmap(named, val)
+                st.env[n] = val
                 st.narrowed = st.narrowed | {n}
 
     def st_With(self, s, st):
